@@ -11,6 +11,9 @@ Binding : B1 - every exported history is replayed on the real SubscriptionTrie (
           B3 - real PUB/SUB sockets: subscribe / unsubscribe phases with multipart messages (filter on the
           first frame), delivered set compared with the model's Matches; histories validated by TLC
           against Delivery.tla (fan-out); a stalled subscriber must not block the publisher.
+Beyond  : spec/SubSync.tla - what the SUB puts on the wire towards each publisher (SUBSCRIBE / CANCEL, the
+          synchronisation of a connection that comes up or comes back); behaviours replayed on a real SUB
+          socket whose publishers are raw ZMTP peers (`vh subsync`, both backends). NOTE only.
 """
 import json
 import os
@@ -62,6 +65,35 @@ def run(ctx):
     ctx.selftest["perturbed_match_expectation_rejected"] = "%d/%d" % (flagged, st["runs"])
     if flagged < st["runs"]:
         raise vlib.ToolError("binding self-test failed")
+
+    # ---- what the SUB tells its publishers (SubSync.tla) ----
+    # Not in the words of C12 (rzmq's PUB does not filter, so it cannot be seen between two rzmq sockets),
+    # but a publisher that filters at its own end only sends what it was told about: a disagreement is
+    # reported as a NOTE, never as a violation.
+    ctx.model_check("MC_SubSync", "MC_SubSync_quick.cfg", workers=8, timeout=900, coverage=False)
+    sssim = ctx.model_check("MC_SubSync", "MC_SubSync_sim.cfg", workers=1, simulate=400 if thorough else 60, depth=12, seed=ctx.seed, timeout=900)
+    if not sssim.replays:
+        raise vlib.ToolError("no SubSync behaviours exported")
+    sp = os.path.join(ctx.work, "subsync.jsonl")
+    so = os.path.join(ctx.work, "subsync.out")
+    vlib.write_jsonl(sp, sssim.replays)
+    vlib.vh(["subsync", sp, so, "--both", "--limit", 400 if thorough else 60], timeout=1500)
+    sr = json.load(open(so))
+    ctx.traces += sr["runs"]
+    ctx.sample({"from": "MC_SubSync_sim", "history": [[s["op"], s["t"] or s["p"]] for s in sssim.replays[0]["steps"]]})
+    for o in sr["outcomes"]:
+        for i in o["issues"]:
+            if i["class"] == "tool":
+                raise vlib.ToolError("subsync replay: %s" % i["detail"])
+            ctx.drift += 1
+            ctx.note("SubSync (%s, beyond C12): %s: %s" % (o["backend"], i["code"], i["detail"][:500]))
+    stb = [b for b in sssim.replays if any(e["up"] for e in b["steps"][-1]["exp"].values())][:12]
+    vlib.write_jsonl(sp + ".self", stb)
+    vlib.vh(["subsync", sp + ".self", so + ".self", "--limit", 12, "--perturb"], timeout=600)
+    st2 = json.load(open(so + ".self"))
+    ctx.selftest["subsync_falsified_last_expectation_rejected"] = "%d/%d" % (st2["with_issues"], st2["runs"])
+    if st2["with_issues"] < st2["runs"]:
+        raise vlib.ToolError("SubSync binding self-test failed: %s" % ctx.selftest["subsync_falsified_last_expectation_rejected"])
 
     # ---- sockets ----
     A, B = b"a", b"\x00"
